@@ -10,6 +10,7 @@ import io
 from hypothesis import strategies as st
 
 from vlib.core import Sub
+from checks.c20parts._walkguard import guard
 
 ASSUMPTIONS = [
     'strings are ASCII 0x01-0x7f without NUL (the fields are NUL-terminated C strings written with encode("ascii"))',
@@ -203,14 +204,17 @@ def execute(desc, ctx):
     ctx.nontrivial(classify(seqs, ctx))
     value = build(seqs)
     want = want_from_desc(seqs)
-    ctx.check(walk(value) == want, 'constructors', f'constructed value differs from the request:\n want={want!r}\n got ={walk(value)!r}')
+    made = guard(ctx, 'constructors', walk, value)
+    ctx.check(made == want, 'constructors', f'constructed value differs from the request:\n want={want!r}\n got ={made!r}')
 
     buf = io.BytesIO()
     cmdseq.write(value, buf)
     data = buf.getvalue()
-    ctx.check(walk(value) == want, 'no_mutation', 'write() changed the value')
+    ctx.check(guard(ctx, 'no_mutation', walk, value) == want, 'no_mutation', 'write() changed the value')
     parsed = cmdseq.parse(io.BytesIO(data))
-    got = walk(parsed)
+    if not ctx.check(isinstance(parsed, dict), 'roundtrip', f'parse() returned {type(parsed).__name__}, not a dict'):
+        return
+    got = guard(ctx, 'roundtrip', walk, parsed)
     if not ctx.check(got == want, 'roundtrip',
                      f'parse(write(x)) differs\n want={want!r}\n got ={got!r}\n bytes={len(data)}'):
         return
